@@ -1,5 +1,6 @@
 import MahfModel.Model.Conditions
 import MahfModel.Model.ConditionsLoops
+import MahfModel.Model.ConditionsNested
 open MahfModel MahfModel.Sexp MahfModel.Conditions
 
 /-! Driver for C10: `agree` = code-shaped model reproduces the implementation's output,
@@ -418,6 +419,195 @@ def caseLoopC (c : Conn) (n m step : Nat) (impl : Sexp) : Verdict :=
     | _ => "count"
   verdict (Sexp.beq model impl) (Sexp.beq spec impl) cls model
 
+/-! Conditions on nested states (Model/ConditionsNested.lean) -/
+
+def ckN? : Sexp → Option (Option Nat)
+  | .atom "pe" => some none
+  | .list [.atom "de", t] => (nat? t).map some
+  | _ => none
+
+def ckF? : Sexp → Option (Option Float)
+  | .atom "pe" => some none
+  | .list [.atom "de", t] => (float? t).map some
+  | _ => none
+
+def nCond? : Sexp → Option (NCond Float)
+  | .list [.atom "opt", e] => (float? e).map .opt
+  | .list [.atom "lt", k, n] => do pure (.lt (← nKey? k) (← nat? n))
+  | .list [.atom "ltb", n] => (float? n).map .ltb
+  | .list [.atom "every", k, n] => do pure (.every (← nKey? k) (← nat? n))
+  | .list [.atom "chg", k, ck] => do pure (.chg (← nKey? k) (← ckN? ck))
+  | .list [.atom "chgb", ck] => (ckF? ck).map .chgb
+  | _ => none
+
+def optF? : Sexp → Option (Option Float)
+  | .atom "none" => some none
+  | s => (float? s).map some
+
+/-- `fuel` bounds the nesting depth of `(in …)` only. -/
+def parseNItems : Nat → List Sexp → Option (NItems Float)
+  | 0, _ => none
+  | fuel + 1, xs => go fuel xs
+where
+  go (fuel : Nat) : List Sexp → Option (NItems Float)
+    | [] => some .nil
+    | x :: xs => do
+      let i ← match x with
+        | .list [.atom "put", k, v] => do pure (NItem.op (.put (← nKey? k) (← nat? v)))
+        | .list [.atom "putb", b] => do pure (NItem.op (.putb (← optF? b)))
+        | .list [.atom "set", k, v] => do pure (NItem.op (.set (← nKey? k) (← nat? v)))
+        | .list [.atom "updb", b] => do pure (NItem.op (.updb (← float? b)))
+        | .list [.atom "init", c] => do pure (NItem.op (.init (← nat? c)))
+        | .list [.atom "eval", c] => do pure (NItem.op (.eval (← nat? c)))
+        | .list (.atom "in" :: body) => do pure (NItem.inner (← parseNItems fuel body))
+        | _ => none
+      let rest ← go fuel xs
+      pure (.cons i rest)
+
+def resB : Option Bool → Sexp
+  | some b => ofBool b
+  | none => .atom "err"
+
+def nEventSexp (e : NEvent Float) : Sexp :=
+  match e.prog with
+  | none => .list [ofNat e.c, resB e.res]
+  | some p => .list [ofNat e.c, resB e.res, optF p]
+
+/-- What the property allows for one evaluation: the acceptable results and, for LessThanN, the
+progress that must be readable afterwards (checked when the result is a verdict). -/
+structure NExpect where
+  c : Nat
+  accept : List (Option Bool)
+  prog : Option (Option Float)
+
+/-- The specification-side judge: everything is read off what the state SEES (`visible`: the first of
+the values declared along the chain, innermost first).
+* optimum-reached: true exactly when the state sees a best value and it is within eps of the optimum
+  (either rounding of "within"; a best value below the known optimum is outside the domain);
+* less-than-n / every-n: the verdict about the value the state sees, progress value/n; no value — not true;
+* change-of: the value the state sees against the memory the condition sees; no value / no memory — not true. -/
+def nSpecEval (optimum : Float) (c : Nat) (cd : NCond Float) (fs : List (NFrame Float)) : NExpect × List (NFrame Float) :=
+  let notTrue : List (Option Bool) := [some false, none]
+  let seenBest : Option Float := match visible (fun f => f.best) fs with
+    | some (some b) => some b
+    | _ => none
+  match cd with
+  | .opt eps =>
+    let acc := match seenBest with
+      | some b =>
+        if b < optimum then [some true, some false]
+        else [some (decide (b ≤ optimum + eps)), some (decide ((b - optimum).abs ≤ eps))]
+      | none => notTrue
+    ({ c, accept := acc, prog := none }, fs)
+  | .lt key n =>
+    match visible (fun f => f.obs key) fs with
+    | none => ({ c, accept := notTrue, prog := some (visible (fun f => f.prog key) fs) }, fs)
+    | some v =>
+      let p := v.toFloat / n.toFloat
+      let fs' := nWrite (fun f => f.prog key) (fun f => { f with prog := upd f.prog key (some p) }) fs
+      ({ c, accept := [some (decide (v < n))], prog := some ((visible (fun f => f.prog key) fs).map fun _ => p) }, fs')
+  | .ltb n =>
+    match seenBest with
+    | none => ({ c, accept := notTrue, prog := some (visible (fun f => f.prog 4) fs) }, fs)
+    | some b =>
+      let p := b / n
+      let fs' := nWrite (fun f => f.prog 4) (fun f => { f with prog := upd f.prog 4 (some p) }) fs
+      ({ c, accept := [some (decide (b < n))], prog := some ((visible (fun f => f.prog 4) fs).map fun _ => p) }, fs')
+  | .every key n =>
+    match visible (fun f => f.obs key) fs with
+    | none => ({ c, accept := notTrue, prog := none }, fs)
+    | some v => ({ c, accept := [some (if n == 0 then v == 0 else v % n == 0)], prog := none }, fs)
+  | .chg key th =>
+    match visible (fun f => f.obs key) fs, visible (fun f => f.prevN key) fs with
+    | some v, some prev =>
+      let differs : Nat → Nat → Bool := match th with
+        | none => fun a b => a != b
+        | some t => fun a b => decide ((if a < b then b - a else a - b) ≥ t)
+      let fired := match prev with
+        | none => true
+        | some p => differs v p
+      let fs' := if fired then nWrite (fun f => f.prevN key) (fun f => { f with prevN := upd f.prevN key (some (some v)) }) fs else fs
+      ({ c, accept := [some fired], prog := none }, fs')
+    | _, _ => ({ c, accept := notTrue, prog := none }, fs)
+  | .chgb th =>
+    match seenBest, visible (fun f => f.prevB) fs with
+    | some b, some prev =>
+      let differs : Float → Float → Bool := match th with
+        | none => fun a b => !(a == b)
+        | some t => fun a b => !((if a == b then 0.0 else (a - b).abs) < t)
+      let fired := match prev with
+        | none => true
+        | some p => differs b p
+      let fs' := if fired then nWrite (fun f => f.prevB) (fun f => { f with prevB := some (some b) }) fs else fs
+      ({ c, accept := [some fired], prog := none }, fs')
+    | _, _ => ({ c, accept := notTrue, prog := none }, fs)
+
+def resOpt? : Sexp → Option (Option Bool)
+  | .atom "t" => some (some true)
+  | .atom "f" => some (some false)
+  | .atom "err" => some none
+  | _ => none
+
+def nEventOk (x : NExpect) (impl : Sexp) : Bool :=
+  match impl with
+  | .list [c, r] => nat? c == some x.c && x.prog.isNone && (match resOpt? r with | some r => x.accept.contains r | none => false)
+  | .list [c, r, p] =>
+    nat? c == some x.c &&
+      (match resOpt? r, x.prog with
+       | some r, some xp => x.accept.contains r && (r.isNone || Sexp.beq p (optF xp))
+       | _, _ => false)
+  | _ => false
+
+def allOk : List NExpect → List Sexp → Bool
+  | [], [] => true
+  | x :: xs, e :: es => nEventOk x e && allOk xs es
+  | _, _ => false
+
+def caseNst (optimum : Float) (conds : List (NCond Float)) (items : NItems Float) (impl : Sexp) : Verdict :=
+  let model := tag "log" ((nRun Nat.toFloat optimum conds items).map nEventSexp)
+  let spec := (nExecItems conds (nSpecEval optimum) items [NFrame.empty] []).2
+  let holds := match impl with
+    | .list (.atom "log" :: es) => allOk spec es
+    | _ => false
+  let cls := match impl with
+    | .atom "panic" => "panic"
+    | _ => "wrong-value"
+  verdict (Sexp.beq model impl) holds cls model
+
+/-! The nested search (`scope_`* around `while !OptimumReached(eps) & iterations < k`) -/
+
+def sEventSexp (e : SEvent Float) : Sexp :=
+  .list [.atom "t", ofBool e.verdict, ofNat e.iters, optF e.best]
+
+def nsOut (passes : Nat) (log : List (SEvent Float)) (root : Option Float) : Sexp :=
+  .list [tag "res" [.atom "ok"], tag "passes" [ofNat passes], tag "log" (log.map sEventSexp), tag "root" [optF root]]
+
+/-- The least `j ≤ bound` at which the search stops. -/
+def searchStop (optimum eps : Float) (k : Nat) (start : Option Float) (script : List Float) : Nat → Nat → Option Nat
+  | 0, j => if searchGoesOn optimum eps k start script j then none else some j
+  | fuel + 1, j => if searchGoesOn optimum eps k start script j then searchStop optimum eps k start script fuel (j + 1) else some j
+
+def caseNSearch (optimum eps : Float) (k : Nat) (outer : Option Float) (shadow : List Bool) (script : List Float)
+    (impl : Sexp) : Verdict :=
+  let model := match nsRun Nat.toFloat optimum eps k outer shadow script (k + 2) with
+    | some (p, log, root) => nsOut p log root
+    | none => .atom "model-fuel"
+  -- property: the loop tests `!reached(best the search's state sees) & j < k` at j = 0, 1, …; it makes exactly the
+  -- first such j that is false; the state of the search sees NOTHING of the outer best once a scope keeps its own
+  let start := searchStart outer shadow
+  let spec := match searchStop optimum eps k start script k 0 with
+    | some p =>
+      nsOut p ((List.range' 0 (p + 1)).map fun j =>
+          { verdict := searchGoesOn optimum eps k start script j, iters := j, best := runningBest start script j })
+        (if shadow.any id then outer else runningBest outer script p)
+    | none => .atom "spec-unbounded"
+  let cls := match impl with
+    | .atom "panic" => "panic"
+    | .atom "budget" => "timeout"
+    | .list (.list [.atom "res", .atom "err"] :: _) => "err"
+    | _ => "count"
+  verdict (Sexp.beq model impl) (Sexp.beq spec impl) cls model
+
 def envOf (os : List Res) : Env := fun i => (os[i]?).getD .err
 
 def c10 (input implOut : Sexp) : Option Verdict :=
@@ -456,6 +646,11 @@ def c10 (input implOut : Sexp) : Option Verdict :=
       | .atom "none" => some none
       | p => (nat? p).map some
     caseNest (← nat? runs) pre (← parseLItems 32 is) implOut
+  | .list [.atom "nst", .list [.atom "opt", o], .list (.atom "conds" :: cs), .list (.atom "items" :: is)] => do
+    caseNst (← float? o) (← cs.mapM nCond?) (← parseNItems 16 is) implOut
+  | .list [.atom "nsearch", .list [.atom "opt", o], .list [.atom "eps", e], k, outer, .list (.atom "sh" :: sh),
+      .list (.atom "script" :: sc)] => do
+    caseNSearch (← float? o) (← float? e) (← nat? k) (← optF? outer) (← sh.mapM bool?) (← sc.mapM float?) implOut
   | .list [.atom "loopc", c, n, m, st] => do caseLoopC (← conn? c) (← nat? n) (← nat? m) (← nat? st) implOut
   | .list [.atom "loop", .atom "i", n] => do caseLoop (← nat? n) 1 false implOut
   | .list [.atom "loop", .atom "e", n, s] => do caseLoop (← nat? n) (← nat? s) true implOut
